@@ -639,7 +639,7 @@ fn build_chain(roots: &[MSet], alpha: &[Edit], n: usize) -> Dir {
 /// Version names as they occur in the wild (the shortcut table of version_graph.rs, the repository's fixture)
 /// and names with characters a pattern written for `1.2.3` would not expect. Only `#`, `~` and `/` have a
 /// meaning in a file name; everything else is part of the version's name.
-const WILD_NAMES: [&str; 28] = [
+pub const WILD_NAMES: [&str; 28] = [
 	"a1.0.15~server-a0.1.0", "a1.0.16~server-a0.1.1-1707", "b1.8-pre1-201109081459", "b1.3-1750-client", "12w05a-1442", "1.0.0",
 	"1.3-pre-07261249", "1.RV-Pre1", "af-2013-red", "2point0_blue", "13w16a-04192037", "1.12-pre3-1409", "1.4~server-0.4",
 	"UPPER", "upper~Upper2", "with space", " padded ", "plus+sign", "(paren)", "dollar$sign", "percent%20", "ünïcode", "日本",
